@@ -9,4 +9,4 @@ NOTES = "See DESIGN.md. Every check: regenerates coq/Gen/Facts.v from /repo, reb
 ALL = ["C%02d" % i for i in range(1, 21)]
 NA_REASONS = {}
 # properties whose check has been integrated and verified by the coordinator (others stay in not_applicable until then)
-READY = ["C01", "C02", "C03", "C04", "C05", "C06", "C07", "C08", "C09", "C10", "C11", "C12", "C13", "C14", "C15", "C16", "C17", "C19", "C20"]
+READY = ["C%02d" % i for i in range(1, 21)]
